@@ -521,7 +521,10 @@ class C34(dst.Check):
         def pscw_nodetach(plan, cls, msg):
             return any(ph['kind'] == 'pscw' for ph in plan['phases']) and \
                 str(plan['cfg'].get('smpi/send-is-detached-thresh')) == '0'
-        return dict(has_cas=has_cas, has_acc_and_fetch=has_acc_and_fetch, has_excl_lock=has_excl_lock,
+        def excl_shared_not_owner(plan, cls, msg):
+            return has_excl_and_shared(plan, cls, msg) and "you're not the owner" in msg
+
+        return dict(excl_shared_not_owner=excl_shared_not_owner, has_cas=has_cas, has_acc_and_fetch=has_acc_and_fetch, has_excl_lock=has_excl_lock,
                     has_excl_and_shared=has_excl_and_shared, fence_noassert_then_pscw=fence_noassert_then_pscw,
                     pscw_nodetach=pscw_nodetach)
 
